@@ -122,3 +122,20 @@ package paillier
 //@   site common.SHA512_256#0 : [C12.challenge-input-is-(i,j,n,k,X,Y,N)] len($arg0) == 7 && bytes($arg0[0]) == bytes(ib) && bytes($arg0[2]) == bytes(nb) && bytes($arg0[3]) == bytes(kb) && bytes($arg0[4]) == bytes(sXb) && bytes($arg0[5]) == bytes(sYb) && bytes($arg0[6]) == bytes(Nb)
 //@   ensures sent(chs[j]) == old(sent(chs[j])) + 1
 //@   ensures !isnil(as(sentv(chs[j], old(sent(chs[j]))), "[]byte")) && len(as(sentv(chs[j], old(sent(chs[j]))), "[]byte")) == 32
+
+// GenerateKeyPair: two safe primes from the generator (contract in common), far
+// apart, and the key built from them.
+// safeP(x, L): x is an L-bit safe prime with its two top bits set
+//@ define safeP(x, L) = probprime(x, 30) && probprime((x - 1) / 2, 30) && bitlen(x) == L && x >= 3 * pow2(L - 2)
+//@ func GenerateKeyPair
+//@   props C14 C19 C06
+//@   deadpoints 1
+//@   requires !isnil(ctx) && !isnil(rand)
+//@   requires [at-most-one-concurrency-argument] len(optionalConcurrency) <= 1
+//@   requires [concurrency-in-range] len(optionalConcurrency) == 1 ==> (0 <= optionalConcurrency[0] && optionalConcurrency[0] <= 1048576)
+//@   requires [size-in-range] modulusBitLen <= 2097152
+//@   ensures [C14.too-small-a-modulus-is-refused] modulusBitLen / 2 < 6 ==> err != nil
+//@   ensures [C14.key-is-built-from-two-distinct-safe-primes-far-apart] isnil(err) ==> (privateKey != nil && publicKey != nil && privateKey.P != nil && privateKey.Q != nil && safeP(val(privateKey.P), modulusBitLen / 2) && safeP(val(privateKey.Q), modulusBitLen / 2) && val(privateKey.P) != val(privateKey.Q) && bitlen(val(privateKey.P) - val(privateKey.Q)) >= modulusBitLen / 2 - 3)
+//@   ensures [C14.modulus-is-the-product-and-has-exactly-the-requested-length] isnil(err) ==> (publicKey.N != nil && privateKey.PublicKey.N == publicKey.N && val(publicKey.N) == imul(val(privateKey.P), val(privateKey.Q)) && lemTopProduct(val(privateKey.P), val(privateKey.Q), modulusBitLen / 2) && lemBitlen(val(publicKey.N), 2 * (modulusBitLen / 2)) && bitlen(val(publicKey.N)) == 2 * (modulusBitLen / 2))
+//@   ensures [C14.phi-and-lambda-match-the-primes] isnil(err) ==> (privateKey.PhiN != nil && privateKey.LambdaN != nil && val(privateKey.PhiN) == imul(val(privateKey.P) - 1, val(privateKey.Q) - 1) && val(privateKey.LambdaN) == val(privateKey.PhiN) / gcd(val(privateKey.P) - 1, val(privateKey.Q) - 1))
+//@   loop 0 invariant tmp != nil && fresh(tmp) && 0 <= concurrency && concurrency <= 1048576
